@@ -199,6 +199,7 @@ impl<'r> Printer<'r> {
             Stmt::Break => self.w("comot"),
             Stmt::Continue => self.w("next"),
             Stmt::Expr(e) => self.expr(e, 0, true),
+            Stmt::Raw(text) => self.toks.push(Tok::Word(text.clone())),
         }
     }
 
